@@ -10,4 +10,12 @@ if ! go build -tags verif -o bin/raftmc ./cmd/raftmc 2>bin/build.log; then
   echo "BUILD-FAILED: /repo no longer builds with the verif hooks"
   exit 2
 fi
+case "$1" in C05|C10|C20)
+  # explorer of the channel front end (node.go); a test binary because it runs inside a testing/synctest bubble
+  if ! go test -c -tags verif -vet=off -o bin/nodex.test ./nodex 2>bin/build.log; then
+    cat bin/build.log
+    echo "BUILD-FAILED: /repo no longer builds with the verif hooks"
+    exit 2
+  fi;;
+esac
 exec bin/raftmc check -prop "$1" -tier "${2:-quick}"
